@@ -161,7 +161,12 @@ int main(int argc, char *argv[])
             msg_length = Avtp_Ntscf_GetNtscfDataLength((Avtp_Ntscf_t*)cf_pdu);
         }
 
-        // Check if the control packet payload is a ACF GPC.
+        // Drop datagrams that are too short to carry an ACF VSS header
+        if ((uint64_t)res < proc_bytes + AVTP_VSS_FIXED_HEADER_LEN) {
+            continue;
+        }
+
+        // Check if the control packet payload is a ACF VSS.
         acf_pdu = &pdu[proc_bytes];
         acf_type = Avtp_AcfCommon_GetAcfMsgType((Avtp_AcfCommon_t*)acf_pdu);
         if (acf_type != AVTP_ACF_TYPE_VSS) {
@@ -169,26 +174,50 @@ int main(int argc, char *argv[])
             continue;
         }
 
+        // The announced ACF message has to fit into the received datagram
+        acf_msg_length = Avtp_Vss_GetAcfMsgLength((Avtp_Vss_t*)acf_pdu) * 4;
+        if (acf_msg_length < AVTP_VSS_FIXED_HEADER_LEN ||
+                proc_bytes + acf_msg_length > (uint64_t)res) {
+            continue;
+        }
+
         // Parse the VSS Packet and print contents on the STDOUT
         Vss_AddrMode_t addrMode;
         VssPath_t path;
+        uint8_t *vss_path = acf_pdu + AVTP_VSS_FIXED_HEADER_LEN;
+        uint16_t path_size;
         addrMode = Avtp_Vss_GetAddrMode((Avtp_Vss_t*)acf_pdu);
-        Avtp_Vss_GetVssPath((Avtp_Vss_t*)acf_pdu, &path);
 
         if (addrMode == VSS_INTEROP_MODE) {
-            char path_string[path.vss_interop_path.path_length+1];
-            memset(path_string, '\0', path.vss_interop_path.path_length+1);
-            memcpy(path_string, path.vss_interop_path.path, path.vss_interop_path.path_length);
-            printf("VSS Path: %s, ", path_string);
+            // 16 bit length followed by the (not NUL terminated) path
+            if (acf_msg_length < AVTP_VSS_FIXED_HEADER_LEN + 2) {
+                continue;
+            }
+            uint16_t path_length = (uint16_t)((vss_path[0] << 8) | vss_path[1]);
+            if (path_length > acf_msg_length - AVTP_VSS_FIXED_HEADER_LEN - 2) {
+                continue;
+            }
+            path_size = 2 + path_length;
+            printf("VSS Path: %.*s, ", (int)path_length, (char *)vss_path + 2);
         } else if (addrMode == VSS_STATIC_ID_MODE) {
+            if (acf_msg_length < AVTP_VSS_FIXED_HEADER_LEN + 4) {
+                continue;
+            }
+            path_size = 4;
+            Avtp_Vss_GetVssPath((Avtp_Vss_t*)acf_pdu, &path);
             printf("VSS Path: %d, ", path.vss_static_id_path);
+        } else {
+            continue;
         }
 
         VssData_t data;
         Vss_Datatype_t dt = Avtp_Vss_GetDatatype((Avtp_Vss_t*)acf_pdu);
-        Avtp_Vss_GetVssData((Avtp_Vss_t*)acf_pdu, &data);
 
         if (dt == VSS_FLOAT) {
+            if (acf_msg_length < AVTP_VSS_FIXED_HEADER_LEN + path_size + 4) {
+                continue;
+            }
+            Avtp_Vss_GetVssData((Avtp_Vss_t*)acf_pdu, &data);
             printf("VSS Value: %f\n", data.data_float);
         }
 
